@@ -1,4 +1,102 @@
-import TornadoModel.C13.Spec
+/-
+C13 — closing an IOStream settles every pending operation exactly once.
+Theorems about `close` / `_signal_closed` of the stream machine (`TornadoModel.C11.Model`), for every state,
+cause and regex engine, and about every step taken on a closed stream.
+-/
+import TornadoModel.C13.Lemmas
+import TornadoModel.C11.Props
 namespace TornadoModel.C13
-theorem stub : cbCount [] = 0 := rfl
+open TornadoModel.C11
+variable (R : Nat → Bytes → Option Nat)
+
+/-- **close_settles_all**: after `close(cause)` — from any state, for any cause — the stream is closed and
+    owes nothing: no read, write or connect future is left pending. -/
+theorem close_settles_all (s : St) (e : Option ErrK) :
+    pending (close R s e) = [] ∧ (close R s e).closed = true := by
+  refine ⟨?_, close_closed R s e⟩
+  unfold close
+  split
+  · exact (signalClosed_spec s).2.1
+  · exact (signalClosed_spec _).2.1
+
+example : pending (run stdR (init 4 100) [.readBytes 5 false, .wmode .block, .write 3, .connect]).1 = [0, 1, 2] ∧
+    pending (close stdR (run stdR (init 4 100) [.readBytes 5 false, .wmode .block, .write 3, .connect]).1 none) = [] := by
+  decide
+
+/-- what an effective `close()` emits, exactly: the events of completing the pending read (if the buffer
+    satisfies it), then one StreamClosedError per future still pending, then the close callback (if set) -/
+theorem close_spec (s : St) (e : Option ErrK) (hc : s.closed = false) :
+    (close R s e).out = (completeAtClose R (setError s e)).out
+        ++ failEvs (setError s e).error (pending (completeAtClose R (setError s e)))
+        ++ (if s.cb then [Ev.cb] else []) ∧
+    (close R s e).cb = false ∧ (close R s e).error = (setError s e).error := by
+  obtain ⟨fr, _⟩ := completeAtClose_frame R (setError s e)
+  obtain ⟨_, _, hcb, _⟩ := setError_frame s e
+  unfold close
+  simp only [hc, Bool.false_eq_true, ↓reduceIte]
+  obtain ⟨a, _, c, d⟩ := signalClosed_spec { completeAtClose R (setError s e) with io := none, closed := true }
+  refine ⟨?_, c, ?_⟩
+  · rw [a]
+    have : pending ({ completeAtClose R (setError s e) with io := none, closed := true } : St)
+        = pending (completeAtClose R (setError s e)) := rfl
+    rw [this]
+    simp only [fr.error, fr.cb, hcb]
+  · rw [d]; exact fr.error
+
+/-- **others_get_closed_error**: every write and connect future pending when the stream closes fails with
+    StreamClosedError carrying the stream's real error (`stream.error` after the close). -/
+theorem others_get_closed_error (s : St) (e : Option ErrK) (hc : s.closed = false) (f : Nat)
+    (hf : f ∈ s.wfuts.map (·.2) ++ connFutL s) :
+    Ev.settle f (.closedErr (close R s e).error) ∈ (close R s e).out := by
+  obtain ⟨ho, _, he⟩ := close_spec R s e hc
+  obtain ⟨fr, _⟩ := completeAtClose_frame R (setError s e)
+  obtain ⟨hw, hcf, _⟩ := setError_frame s e
+  rw [ho, he]
+  have : f ∈ pending (completeAtClose R (setError s e)) := by
+    rw [pending_eq, fr.wfuts, hw]
+    have : connFutL (completeAtClose R (setError s e)) = connFutL s := by
+      unfold connFutL; rw [fr.cfut, hcf]
+    rw [this, List.append_assoc]
+    exact List.mem_append_right _ hf
+  simp only [List.mem_append, failEvs, List.mem_map]
+  exact Or.inl (Or.inr ⟨f, this, rfl⟩)
+
+/-- the cause given to `close(exc_info=exc)` is the error reported -/
+theorem close_error (s : St) (k : ErrK) (hc : s.closed = false) : (close R s (some k)).error = k := by
+  rw [(close_spec R s (some k) hc).2.2]; rfl
+
+/-- **callback_once_after**: if a close callback is installed, `close()` schedules it exactly once, as the LAST
+    event (after every future has been settled), and uninstalls it; otherwise nothing is scheduled. -/
+theorem callback_once_after (s : St) (e : Option ErrK) (hc : s.closed = false) :
+    (close R s e).cb = false ∧
+    (s.cb = true → ∃ pre, (close R s e).out = pre ++ [Ev.cb] ∧ cbCount pre = cbCount s.out) ∧
+    (s.cb = false → cbCount (close R s e).out = cbCount s.out) := by
+  obtain ⟨ho, hcb, _⟩ := close_spec R s e hc
+  obtain ⟨_, evs, hevs, h0, _⟩ := completeAtClose_frame R (setError s e)
+  obtain ⟨_, _, _, hout, _⟩ := setError_frame s e
+  refine ⟨hcb, ?_, ?_⟩
+  · intro h
+    refine ⟨_, by rw [ho, h]; rfl, ?_⟩
+    rw [cbCount_append, cbCount_failEvs, hevs, cbCount_append, h0, hout]; omega
+  · intro h
+    rw [ho, h]
+    simp only [Bool.false_eq_true, if_false, List.append_nil]
+    rw [cbCount_append, cbCount_failEvs, hevs, cbCount_append, h0, hout]; omega
+
+example : (close stdR (run stdR (init 4 100) [.setCb, .readBytes 5 false]).1 none).out
+    = [.settle 0 (.closedErr .none), .cb] := by decide
+
+/-- a second `close()` emits no callback unless one was installed again, and fails only what was started since -/
+theorem close_again (s : St) (e : Option ErrK) (hc : s.closed = true) :
+    (close R s e).out = s.out ++ failEvs s.error (pending s) ++ (if s.cb then [Ev.cb] else []) ∧
+    (close R s e).error = s.error := by
+  unfold close
+  simp only [hc, if_true]
+  exact ⟨(signalClosed_spec s).1, (signalClosed_spec s).2.2.2⟩
+
+/-- **no_write_after_close**: `write()` on a closed stream raises StreamClosedError(real error) and changes nothing -/
+theorem no_write_after_close (s : St) (n : Nat) (hc : s.closed = true) :
+    doStep R s (.write n) = (s, .raised (.streamClosed s.error)) := by
+  simp [doStep, hc]
+
 end TornadoModel.C13
